@@ -116,7 +116,11 @@ func (g *richGen) strDecl(v *Vocab, depth int) D {
 		return g.flags(D{"const": r.Pick("c", " pad ", "", "X1", "0", "1.5", "true", " ")}, true)
 	case k < 3 && len(g.o.Externals) > 0:
 		g.Stats["external"]++
-		return g.flags(D{"external": g.o.Externals[r.Intn(len(g.o.Externals))]}, true)
+		ext := g.o.Externals[r.Intn(len(g.o.Externals))]
+		if ext == "missing" && r.Chance(3, 4) {
+			ext = g.o.Externals[0]
+		}
+		return g.flags(D{"external": ext}, true)
 	case k < 8 || depth >= g.o.MaxDepth:
 		g.Stats["field"]++
 		d := D{}
@@ -400,6 +404,15 @@ func GenRichDecls(r *core.Rand, v *Vocab, o RichOpts) (D, map[string]int) {
 				}
 			}
 		}
+	}
+	if r.Chance(1, 6) {
+		// an array with more than nine element declarations (element order must be declaration order)
+		var arr []interface{}
+		for i := 0; i < r.Range(10, 14); i++ {
+			arr = append(arr, D{"const": fmt.Sprintf("e%d", i+1)})
+		}
+		obj["bigarr"] = D{"array": arr}
+		g.Stats["array_with_10plus_elements"]++
 	}
 	if o.AllowUp && len(v.Up) > 0 {
 		// the record's ancestors change between records: make sure they are addressed
